@@ -77,6 +77,17 @@ CLAIMED["C04"] = dict(
     technique="exhaustive enumeration of program x configuration space on the implementation with a CPU-style evaluator as oracle",
     design_ref="3/C04", engine="harness/c04_reloc.cpp")
 
+CLAIMED["C07"] = dict(
+    level="model_checking",
+    text="Frame configurations (dirty GP/vector/mask subsets, local size/alignment, call area, preserved FP, calls, SSE/AVX/AVX-512 save modes, entry SP, "
+         "argument counts) are enumerated with <=3 (quick) / <=4 (thorough) deviations from the default frame for 13 conventions/targets; the emitted prolog and epilog "
+         "are interpreted by the msim node simulator around a synthetic body that destroys every dirty/volatile register and every byte of the declared areas; "
+         "return address, SP, callee-saved registers, caller frame, alignment and stack-argument offsets are checked.",
+    note="Prolog/epilog are interpreted (ISA-manual semantics in engine/msim.h), not executed; preserved-register sets come from CallConv (judged by C06); alphabets are finite. "
+         "Known finding: AArch64 dynamic stack alignment is not implemented.",
+    technique="bounded exhaustive enumeration of configurations (deviation-bounded DFS) with a machine-state simulator as oracle",
+    design_ref="3/C07", engine="engine/msim.h")
+
 NOT_YET = "check not built yet in this round (planned, see DESIGN.md section 3); not claimed until it exists and passes"
 
 
